@@ -23,7 +23,11 @@ func hcGenExchange(rng *sim.Rand, prop string, sc *hcScenario) hcExchange {
 	ex := hcExchange{}
 	ex.Method = hcMethods[rng.Intn(len(hcMethods))]
 	ex.Path = rng.PickStr("/", "/a", "/a/b", "/a%20b", "/x/y/z.json", "/caf%C3%A9", "/a//b", "/a;p=1")
-	ex.Query = rng.PickStr("", "", "a=1", "a=1&a=2", "q=%20x&y", "x=a+b", "&&", "k=v%26w")
+	if rng.Bool(0.15) {
+		// reserved characters that are data here because they are percent-encoded
+		ex.Path = rng.PickStr("/a%3Fb", "/a%23b", "/x%2Fy", "/100%25", "/a%2541", "/q%3Fk=v/z", "/sp%20ace%2Fd")
+	}
+	ex.Query = rng.PickStr("", "", "a=1", "a=1&a=2", "q=%20x&y", "x=a+b", "&&", "k=v%26w", "a=1;b=2", "x=%zz", "%3F=%26%23", "u=http://h/p?q=1", "e=")
 	e2e := [][2]string{{"X-A", "1"}, {"X-B", "two words"}, {"Accept", "text/plain"}, {"Content-Type", "application/octet-stream"},
 		{"Cookie", "k=v; k2=v2"}, {"Authorization", "Bearer abc"}, {"X-Multi", "m1"}, {"X-Multi", "m2"}, {"x-lower", "lc"}, {"X-Empty", ""}}
 	for _, kv := range e2e {
@@ -634,6 +638,15 @@ func (c *hcChain) checkC03(id string, ex *hcExchange, res *hcResp) {
 	if seen.path != wantPath {
 		r.Violate("C03.req.path", "%s: backend saw path %q want %q\n%s", id, seen.path, wantPath, desc)
 	}
+	if seen.rawPath != ex.Path {
+		r.Probe("c03.request_line_path_differs")
+		// a differently spelled but equivalent path (same decoded path, and no
+		// encoded reserved character turned into a delimiter or vice versa) is
+		// tolerated: only a change of meaning is reported
+		if hcPathMeaning(seen.rawPath) != hcPathMeaning(ex.Path) {
+			r.Violate("C03.req.path-encoding", "%s: the client's request line carried path %q, the backend's %q (decoded: %q)\n%s", id, ex.Path, seen.rawPath, seen.path, desc)
+		}
+	}
 	if seen.query != ex.Query {
 		r.Violate("C03.req.query", "%s: backend saw raw query %q want %q\n%s", id, seen.query, ex.Query, desc)
 	}
@@ -807,6 +820,35 @@ func (c *hcChain) checkMirror(id string, ex *hcExchange, res *hcResp) {
 			r.Violate("C03.mirror.body", "%s: mirror backend got body %s, want %s\n%s", id, hcShort(got), hcShort(want), c.describe(ex))
 		}
 	}
+}
+
+// hcPathMeaning normalises a raw path for comparison: unreserved characters are
+// decoded, every other percent-escape is kept (upper-cased), so that "/a%2Fb"
+// and "/a/b", or "/a%3Fb" and "/a?b", stay different while "/%7Ea" equals "/~a".
+func hcPathMeaning(p string) string {
+	var b strings.Builder
+	for i := 0; i < len(p); i++ {
+		if p[i] == '%' && i+2 < len(p)+0 && i+2 <= len(p)-1 {
+			var v int
+			if _, err := fmt.Sscanf(p[i+1:i+3], "%02x", &v); err == nil {
+				c := byte(v)
+				if c >= 'a' && c <= 'z' || c >= 'A' && c <= 'Z' || c >= '0' && c <= '9' || c == '-' || c == '.' || c == '_' || c == '~' {
+					b.WriteByte(c)
+				} else {
+					fmt.Fprintf(&b, "%%%02X", c)
+				}
+				i += 2
+				continue
+			}
+		}
+		switch c := p[i]; {
+		case c == ' ' || c >= 0x80 || c == '"' || c == '<' || c == '>' || c == '\\' || c == '^' || c == '`' || c == '{' || c == '|' || c == '}':
+			fmt.Fprintf(&b, "%%%02X", c) // a raw byte that must be escaped on the wire means the same as its escape
+		default:
+			b.WriteByte(c)
+		}
+	}
+	return b.String()
 }
 
 func urlUnescapePath(p string) (string, error) {
